@@ -209,6 +209,49 @@ func c08Judge(c *mon.Ctx, src lint.Registry, srcInv []mon.LintInfo, srcLabel str
 	if n := len(got.OcspResponseLints().Lints()); n != kinds[corpus.OCSP] {
 		c.V("lints-listing|ocsp", fmt.Sprintf("OcspResponseLints().Lints() has %d entries, want %d (%s)", n, kinds[corpus.OCSP], desc), "", nil, extra)
 	}
+	// lookup BY SOURCE, per kind, agrees with the selection: the filtered registry "keeps each lint's kind and metadata",
+	// so asking it for the lints of a source must give exactly the selected lints of that source and kind (and the
+	// deprecated kind-less BySource the certificate ones)
+	wantBySrc := map[string]map[string]bool{}
+	for _, n := range want {
+		li := byName[n]
+		k := li.Kind.String() + "|" + string(li.Meta.Source)
+		if wantBySrc[k] == nil {
+			wantBySrc[k] = map[string]bool{}
+		}
+		wantBySrc[k][n] = true
+	}
+	srcSeen := map[lint.LintSource]bool{}
+	for _, li := range srcInv {
+		srcSeen[li.Meta.Source] = true
+	}
+	for s := range srcSeen {
+		gotBy := map[string]map[string]bool{corpus.Cert.String(): {}, corpus.CRL.String(): {}, corpus.OCSP.String(): {}, "deprecated": {}}
+		for _, l := range got.CertificateLints().BySource(s) {
+			gotBy[corpus.Cert.String()][l.Name] = true
+		}
+		for _, l := range got.RevocationListLints().BySource(s) {
+			gotBy[corpus.CRL.String()][l.Name] = true
+		}
+		for _, l := range got.OcspResponseLints().BySource(s) {
+			gotBy[corpus.OCSP.String()][l.Name] = true
+		}
+		for _, l := range got.BySource(s) {
+			if l != nil {
+				gotBy["deprecated"][l.Name] = true
+			}
+		}
+		for _, k := range []corpus.Kind{corpus.Cert, corpus.CRL, corpus.OCSP} {
+			w := wantBySrc[k.String()+"|"+string(s)]
+			if g := gotBy[k.String()]; len(g) != len(w) || !subsetOf(g, w) {
+				c.V("by-source|"+k.String(), fmt.Sprintf("%s lints of source %s in the filtered registry: BySource gives %d, the selection holds %d (%s)", k, s, len(g), len(w), desc), "", nil, extra)
+			}
+		}
+		if g, w := gotBy["deprecated"], wantBySrc[corpus.Cert.String()+"|"+string(s)]; len(g) != len(w) || !subsetOf(g, w) {
+			c.V("by-source|deprecated", fmt.Sprintf("Registry.BySource(%s) of the filtered registry gives %d lints, the selection holds %d certificate lints of that source (%s)", s, len(g), len(w), desc), "", nil, extra)
+		}
+		c.R.Count("by_source_lookups_compared", 1)
+	}
 	gotSources := map[string]bool{}
 	for _, s := range got.Sources() {
 		gotSources[string(s)] = true
@@ -220,6 +263,15 @@ func c08Judge(c *mon.Ctx, src lint.Registry, srcInv []mon.LintInfo, srcLabel str
 		c.V("configuration-not-inherited", "the filtered registry does not carry the source registry's configuration ("+desc+")", "", nil, extra)
 	}
 	return got
+}
+
+func subsetOf(a, b map[string]bool) bool {
+	for k := range a {
+		if !b[k] {
+			return false
+		}
+	}
+	return true
 }
 
 func hashStrings(l []string) string {
